@@ -187,7 +187,7 @@ def history(ctx, rng, steps):
         else:
             ops += ["set", "del", "del", "pop", "setdefault", "update", "popitem"]
         ops += ["freeze_clone"] if len(live) < 6 and rng.random() < 0.3 else []
-        ops += ["cursor_new", "cursor_op", "cursor_op", "cursor_op", "cursor_close", "clear", "iter_mutate", "delete_exact", "del_missing"] if rng.random() < 0.5 else []
+        ops += ["cursor_new", "cursor_op", "cursor_op", "cursor_op", "cursor_close", "clear", "iter_mutate", "delete_exact", "del_missing", "cursor_boundary_drill"] if rng.random() < 0.5 else []
         op = rng.choice(ops)
         k = rng.choice(universe)
         trace.append((op, str(k) if names else k))
@@ -368,6 +368,43 @@ def history(ctx, rng, steps):
                     else:
                         c.seek_last()
                         ent[1] = ("+inf",)
+            elif op == "cursor_boundary_drill":
+                # run a cursor off one end, change the tree at that very end while the cursor sits there (mutation parks it),
+                # then come back: the cut model says the new extreme key is the first thing met
+                if lv.cursors and m and not names:
+                    ctx.count("mon.cursor_op")
+                    ctx.count("mon.cursor_boundary_drill")
+                    ent = rng.choice(lv.cursors)
+                    c, cut = ent
+                    fwd = rng.random() < 0.5
+                    for _ in range(len(m) + 2):
+                        e = c.next() if fwd else c.prev()
+                        want, cut = cursor_expect(sorted(m), cut, "next" if fwd else "prev")
+                        got = None if e is None else e.key()
+                        if got != want:
+                            ctx.violation(f"cursor-differs-from-cut-model:{tag}:{'next' if fwd else 'prev'}", f"drill: cursor {got} model {want}", case)
+                            return
+                        if e is None:
+                            break
+                    how = rng.choice(("explicit-park", "mutation", "mutation"))
+                    if how == "explicit-park":
+                        c.park()
+                    newk = (max(m) + 1) if fwd else (min(m) - 1)
+                    val[0] += 1
+                    if kind == "dict":
+                        tr[newk] = val[0]
+                        m[newk] = val[0]
+                    else:
+                        tr.add(newk)
+                        m[newk] = None
+                    for back in range(2):
+                        e = c.prev() if fwd else c.next()
+                        want, cut = cursor_expect(sorted(m), cut, "prev" if fwd else "next")
+                        got = None if e is None else e.key()
+                        if got != want:
+                            ctx.violation(f"cursor-differs-from-cut-model:{tag}:after-boundary-{how}", f"drill {'forward' if fwd else 'backward'}: cursor {got} model {want}", case)
+                            return
+                    ent[1] = cut
             elif op == "cursor_close":
                 if lv.cursors:
                     c, _ = lv.cursors.pop(rng.randrange(len(lv.cursors)))
